@@ -174,6 +174,7 @@ var keyPool = map[string]poolKey{
 	"K1b": {"k1", 7, []string{"s1", "s2", "s3"}, "pub", "c1b"},
 	"K6":  {"k6", 7, []string{"s1", "s2", "s3"}, "pub", "c6"},
 	"K7":  {"k7", 9, []string{"s1", "s4"}, "pub", "c7"},
+	"K8":  {"k8", 7, []string{"s4", "s1", "s2"}, "pub", "c8"},  // the suite the library cannot serve is listed first
 	"KP":  {"kp", 10, []string{"s1", "s2", "s3"}, "pub", "cp"}, // a P-256 KEM key: held, not usable by the library's HPKE, never a candidate
 	"KX":  {"kx", 7, []string{"s1", "s2", "s3"}, "pub", "cx"},  // config bytes of an unknown version: held, never usable
 }
@@ -191,7 +192,7 @@ type keyring struct {
 
 func newKeyring(seed int64) *keyring {
 	kr := &keyring{privs: map[string]*ecdh.PrivateKey{}, cfgs: map[string][]byte{}}
-	for _, kid := range []string{"k1", "k2", "k3", "k4", "k5", "k6", "k7", "kx"} {
+	for _, kid := range []string{"k1", "k2", "k3", "k4", "k5", "k6", "k7", "k8", "kx"} {
 		h := sha256.Sum256([]byte(fmt.Sprintf("verif-key-%s-%d", kid, seed)))
 		p, err := ecdh.X25519().NewPrivateKey(h[:])
 		if err != nil {
